@@ -550,7 +550,7 @@ func buildScript(ctx, setup, op string) (main string, module string) {
 	}
 	body += "verif_mark()\n" + op + "\n"
 	switch ctx {
-	case "top":
+	case "top", "bare-vos":
 		return body + "r\n", ""
 	case "spawn":
 		return "verif_t := spawn(func() {\n" + body + "return r\n})\nverif_t.wait()\n", ""
